@@ -6,16 +6,19 @@
 (* after every call equals the transcription's.  A contract failure sets   *)
 (* bad = "contract" (VIOLATION C17), a pure shape difference sets          *)
 (* bad = "mechanism" (SPEC-DRIFT).  The implementation's reported shape is *)
-(* adopted as the next state so one drift does not hide the rest.          *)
+(* adopted as the next state and validation CONTINUES after a drift (only  *)
+(* the first drift of a history is printed; `drifted` remembers it), so a  *)
+(* refactoring that rearranges the tree never switches the contract off;   *)
+(* only a contract failure ends the validation of a history.               *)
 (***************************************************************************)
 EXTENDS SplayTree, Json, IOUtils
 
 Runs == ndJsonDeserialize(IOEnv.TRACEFILE)
 
-VARIABLES r, l, tree, bad, rem
-vars == <<r, l, tree, bad, rem>>
+VARIABLES r, l, tree, bad, rem, drifted
+vars == <<r, l, tree, bad, rem, drifted>>
 
-Init == r \in 1..Len(Runs) /\ l = 1 /\ tree = Nil /\ bad = "no" /\ rem = {}
+Init == r \in 1..Len(Runs) /\ l = 1 /\ tree = Nil /\ bad = "no" /\ rem = {} /\ drifted = FALSE
 
 \* nested JSON arrays [k,v,l,r] / [] are exactly the model's trees
 Ev == Runs[r].events[l]
@@ -27,7 +30,7 @@ RECURSIVE DoAll(_, _)
 DoAll(t, items) == IF items = <<>> THEN t ELSE DoAll(Do(t, [op |-> "insert", k |-> items[1][1], v |-> items[1][2]]).t, Tail(items))
 
 Step ==
-  /\ l <= Len(Runs[r].events) /\ bad = "no"
+  /\ l <= Len(Runs[r].events) /\ bad # "contract"
   /\ LET e == Ev
          m == Content(tree)
          o == [op |-> e.op, k |-> e.k, v |-> e.v]
@@ -71,13 +74,14 @@ Step ==
                IN /\ bad' = IF ~okP THEN "contract" ELSE "no"
                   /\ rem' = IterNthEff(rem, e.k, back) /\ tree' = tree
   /\ l' = l + 1 /\ r' = r
-  /\ (bad' # "no") => PrintT(<<"SPLAYFAIL", bad', Runs[r].id, l>>)
+  /\ drifted' = (drifted \/ bad' = "mechanism")
+  /\ (bad' = "contract" \/ (bad' = "mechanism" /\ ~drifted)) => PrintT(<<"SPLAYFAIL", bad', Runs[r].id, l>>)
 
-Done == (l > Len(Runs[r].events) \/ bad # "no") /\ UNCHANGED vars
+Done == (l > Len(Runs[r].events) \/ bad = "contract") /\ UNCHANGED vars
 Next == Step \/ Done
 Spec == Init /\ [][Next]_vars
 
 C17_Contract == bad # "contract"
-M_NoDrift == bad # "mechanism"
+M_NoDrift == ~drifted
 C17_StateIsBST == IsBST(tree, -1000000, 1000000)
 =============================================================================
